@@ -323,7 +323,7 @@ fn stop_cnf(e: flussab_cnf::ParseError) -> Stop {
         },
         flussab_cnf::InnerParseError::IoError(e) => Stop::Io {
             kind: format!("{:?}", e.kind()),
-            msg: e.to_string(),
+            msg: crate::source::describe_io(&e),
         },
     }
 }
@@ -337,7 +337,7 @@ fn stop_aiger(e: flussab_aiger::ParseError) -> Stop {
         },
         flussab_aiger::InnerParseError::IoError(e) => Stop::Io {
             kind: format!("{:?}", e.kind()),
-            msg: e.to_string(),
+            msg: crate::source::describe_io(&e),
         },
     }
 }
@@ -351,7 +351,7 @@ fn stop_btor(e: flussab_btor2::ParseError) -> Stop {
         },
         flussab_btor2::InnerParseError::IoError(e) => Stop::Io {
             kind: format!("{:?}", e.kind()),
-            msg: e.to_string(),
+            msg: crate::source::describe_io(&e),
         },
     }
 }
@@ -659,6 +659,9 @@ fn drive_btor(r: Init, c: &mut Collector) -> Result<(), Stop> {
     use flussab_btor2::{Config, Parser};
     let mut p = make_parser!(Parser, r, Config::default()).map_err(stop_btor)?;
     while let Some(line) = p.next_line().map_err(stop_btor)? {
+        // every returned line can be shown (Display is part of the item's public surface)
+        let shown = line.to_string();
+        std::hint::black_box(&shown);
         c.push(|| Item::Btor(BLine::from_line(&line)));
     }
     Ok(())
